@@ -23,6 +23,9 @@ var kinds = map[string]kind{
 	"cmt":  {genCmt, runCmt},
 	"off":  {genOff, runOff},
 	"sel":  {genSel, runSel},
+	"txn":  {genTxn, runTxn},
+	"eos":  {genEos, runEos},
+	"cls":  {genCls, runCls},
 }
 
 func TestMain(m *testing.M) {
